@@ -250,6 +250,71 @@ def initMed (s : Sys) : R QMat :=
 /-- residual of the discrete Lyapunov equation `Q = T Q Tᵀ + P Σ Pᵀ` (certificate for the library's `init_mse`) -/
 def lyapResidual (s : Sys) (covU Q : QMat) : QMat := Q - (s.T * Q * s.T.transpose + s.P * covU * s.P.transpose)
 
+/-! ### the per-variant loop of `kalman_filter` with variance rescaling
+
+`kalman_filter` loops over the parameter variants; each variant is filtered on its own solution, initial moments, stds and data,
+its MSEs are rescaled by ITS OWN variance scale (`output_store_v.rescale_stds(cache.var_scale)`: std ↦ std·√var_scale, i.e.
+variance ↦ var_scale·variance) and only then appended to the output.  `rnd` is the hand-over rounding of the driver (identity for
+the exact model). -/
+
+/-- `predict` with the state handed to the next period passed through `rnd` -/
+def predictWith (rnd : QMat → QMat) (s : Sys) (a Q : QMat) : List PeriodIn → R (List PeriodCache)
+  | [] => pure []
+  | p :: rest => do
+    let c ← predictStep s a Q p
+    let cs ← predictWith rnd s (rnd c.a1) (rnd c.Q1) rest
+    pure (c :: cs)
+
+/-- `smoothFrom` with `N`, `r` handed to the previous period passed through `rnd` -/
+def smoothFromWith (rnd : QMat → QMat) (s : Sys) (lo : Int) : Nat → List PeriodCache → List Back × Option (QMat × QMat)
+  | _, [] => ([], none)
+  | t, c :: rest =>
+    let (bs, st) := smoothFromWith rnd s lo (t + 1) rest
+    let b := oneStepBack s c (decide ((t : Int) ≤ lo)) (st.map (fun nr => (rnd nr.1, rnd nr.2)))
+    (b :: bs, b.Nr)
+
+structure VariantIn where
+  sys : Sys
+  a : QMat
+  Q : QMat
+  periods : List PeriodIn
+  deriving Repr, Inhabited
+
+structure VariantOut where
+  caches : List PeriodCache
+  back : List Back
+  lik : Lik
+  predictVar : List QMat     -- reported (rescaled) prediction MSEs
+  updateVar : List QMat
+  smoothVar : List QMat
+  deriving Repr, Inhabited
+
+/-- `rescale_stds` on the level of variances -/
+def scaleMse (vs : Rat) (q : QMat) : QMat := QMat.smul vs q
+
+/-- one pass of the variant loop -/
+def runVariant (rnd : QMat → QMat) (rescale : Bool) (v : VariantIn) : R VariantOut := do
+  if !shapesOk v.sys v.a v.Q then throw .shape
+  let cs ← predictWith rnd v.sys v.a v.Q v.periods
+  let lk ← likelihood cs rescale
+  let sb := (smoothFromWith rnd v.sys (lastObs cs) 0 cs).1
+  pure { caches := cs, back := sb, lik := lk,
+         predictVar := cs.map (fun c => scaleMse lk.varScale c.Q0),
+         updateVar := cs.map (fun c => scaleMse lk.varScale c.Q1),
+         smoothVar := sb.map (fun b => scaleMse lk.varScale b.Q) }
+
+/-- the variant loop: variants in order, each on its own -/
+def filterVariants (rnd : QMat → QMat) (rescale : Bool) : List VariantIn → R (List VariantOut)
+  | [] => pure []
+  | v :: rest => do
+    let o ← runVariant rnd rescale v
+    let os ← filterVariants rnd rescale rest
+    pure (o :: os)
+
+/-- the measurement block of the simulator with its mode flag (`_simulate_measurement(deviation=…)`) -/
+def simulateMeasurement (dev : Bool) (c : PeriodCache) (b : Back) : QMat :=
+  if dev then c.Z * b.a + c.H * b.w else c.Z * b.a + c.H * b.w + c.D
+
 /-! ### the identities of C08, evaluated exactly on the model's own output -/
 
 /-- `Z a₂ + H w₂ + D = y` on the observed rows of one period -/
